@@ -349,10 +349,13 @@ def sUnits := "units:".toList
 def sX0 := "x0:".toList
 def sX1 := "x1:".toList
 
-/-- one comment line; `none` = exception (`curr[0]` / `curr[1]` IndexError, `float` ValueError) -/
+/-- one comment line; a line consisting of `#` only is an empty comment and is skipped; `none` = the reader
+stops with the error message (`# x0:` / `# x1:` without a value or with a value `float` does not read:
+"Could not parse the value in line …").  (Before the repairs fix_barehash / fix_x0 these three cases were
+unhandled IndexError / ValueError.) -/
 def Meta.step (m : Meta) (ws : List Word) : Option Meta :=
   match ws with
-  | [] => none
+  | [] => some m
   | w :: rest =>
     if w.name = sVariable then some { m with name := some (rest.map (·.name)) }
     else if w.name = sUnits then some { m with units := some (rest.map (·.name)) }
@@ -417,7 +420,7 @@ not distinguish the order). -/
 def parse (ls : List Line) : Except Err Parsed :=
   match rows ls with
   | [] => match metaOf {} (comments ls) with
-          | none => .error .exc
+          | none => .error .exit
           | some m => .ok (assemble [] [] m)
   | hdr :: rs =>
     if !(hdr.any isDataWord) then .error .exit else
@@ -425,7 +428,7 @@ def parse (ls : List Line) : Except Err Parsed :=
     | .error e => .error e
     | .ok ps =>
       match metaOf {} (comments ls) with
-      | none => .error .exc
+      | none => .error .exit
       | some m => .ok (assemble hdr ps m)
 
 /-! ### Densification and derived attributes -/
